@@ -139,6 +139,11 @@ input I @foo { "f" x: Int = 1 @foo y: E = A l: [Float] = 1 d: Date = "2020-01-01
     import random as _random
     for k in range(3):
         out.append(_typed_equal_case(_random.Random(1000 + k)))
+    # seeded C12-e: descriptions are split on "\n" only (U+2028 / U+2029 / U+0085 stay inside a line)
+    out.append(_case([_sdl('type Query {\n  "First paragraph.\u2028Second paragraph."\n  a("sep\u2029x" b: Int): Int\n}\n'
+                           '"nel\x85y"\nenum E { "v\u2028w" A }\n"""\nl1\nl2\u2028x\n"""\ninput I { "a\u2029b" f: Int }\n'
+                           '"d\u2028e"\ndirective @d("q\x85r" x: Int) on FIELD')],
+                     [[0, DEFAULT], [0, _opts(indent=2)]], "description-separators"))
     # seeded C12-d: enum defaults are printed as the member *holding* the internal value
     for k, mode in enumerate(gen_sdl.ENUM_VALUE_MODES):
         out.append(_enum_collision_case(_random.Random(2000 + k), mode=mode))
